@@ -9,8 +9,9 @@
 (* comparator (munge.py renames them to ranks).                            *)
 (***************************************************************************)
 EXTENDS Quantiles, TraceCommon
-VARIABLES blob
-tvars == <<obj, l, blob>>
+VARIABLES blob,
+          ck      \* ghost per object: smallest k that contributed compacted data (Quantiles!CkUpdate / CkMerge)
+tvars == <<obj, l, blob, ck>>
 
 PairsOf(e) == IF Has(e, "pairs") THEN e.pairs ELSE NoObs
 Post(e) == [k |-> e.k, n |-> e.n, minI |-> e.minD, maxI |-> e.maxD, est |-> e.est, nret |-> e.nret,
@@ -63,26 +64,34 @@ TwinOK(e, o) == (Has(e, "twinOf") /\ o.fam # "req" /\ e.twinOf \in DOMAIN obj) =
   /\ Chk("C09:twin-equal-scalars", o.n = t.n /\ o.k = t.k /\ o.est = t.est /\ o.nret = t.nret /\ o.minI = t.minI /\ o.maxI = t.maxI)
   /\ Chk("C09:twin-equal-pairs", (o.pairs # NoObs /\ t.pairs # NoObs) => o.pairs = t.pairs)
 
-TBegin == IsEvent("Begin") /\ obj' = <<>> /\ blob' = <<>>
+\* the published error comes from the published k, and that k covers every contributor of compacted data
+Published(e, fam, c) ==
+  /\ Chk("published-error-is-that-of-published-k", fam # "req" => e.epsD = e.epsPkD)
+  /\ Chk("published-k<=smallest-contributing-k", PublishedKOK(fam, e.pk, c, e.est))
+CkOf(i) == IF i \in DOMAIN ck THEN ck[i] ELSE Big
+TBegin == IsEvent("Begin") /\ obj' = <<>> /\ blob' = <<>> /\ ck' = <<>>
 TNew == IsEvent("New") /\ LET e == Log[l]  o == WithObs(Fresh(e.fam, e.k), Post(e)) IN
-          /\ Named(o, e) /\ New(e.id, e.fam, Post(e)) /\ UNCHANGED blob
+          /\ Named(o, e) /\ New(e.id, e.fam, Post(e)) /\ ck' = (e.id :> Big) @@ ck /\ UNCHANGED blob
 TUpdate == IsEvent("Update") /\ LET e == Log[l]  o == WithObs(AfterUpdate(obj[e.id], e.v), Post(e)) IN
           /\ Named(o, e) /\ Update(e.id, e.v, Post(e)) /\ TwinOK(e, o) /\ UNCHANGED blob
+          /\ LET c == CkUpdate(CkOf(e.id), e.est, e.k) IN Published(e, o.fam, c) /\ ck' = (e.id :> c) @@ ck
 TUpdateNaN == IsEvent("UpdateNaN") /\ LET e == Log[l]  o == WithObs(obj[e.id], Post(e)) IN
           \* NaN is rejected: n, extremes and retained count as before
           /\ Chk("nan-rejected", e.n = obj[e.id].n /\ e.nret = obj[e.id].nret)
-          /\ Named(o, e) /\ Observe(e.id, Post(e)) /\ UNCHANGED blob
+          /\ Named(o, e) /\ Observe(e.id, Post(e)) /\ UNCHANGED <<blob, ck>>
 TMerge == IsEvent("Merge") /\ LET e == Log[l]  o == WithObs(AfterMerge(obj[e.dst], obj[e.src]), Post(e)) IN
           /\ Named(o, e) /\ Merge(e.dst, e.src, e.rv, Post(e)) /\ TwinOK(e, o) /\ UNCHANGED blob
+          /\ LET c == CkMerge(CkOf(e.dst), CkOf(e.src), e.est, e.k) IN Published(e, o.fam, c) /\ ck' = (e.dst :> c) @@ ck
 TObs == IsEvent("Obs") /\ LET e == Log[l]  o == WithObs(obj[e.id], Post(e)) IN
-          /\ Named(o, e) /\ Projection(e, o) /\ Observe(e.id, Post(e)) /\ TwinOK(e, o) /\ UNCHANGED blob
-TCopy == IsEvent("Copy") /\ LET e == Log[l] IN Copy(e.src, e.dst) /\ UNCHANGED blob
-TDestroy == IsEvent("Destroy") /\ LET e == Log[l] IN Destroy(e.id) /\ UNCHANGED blob
+          /\ Named(o, e) /\ Projection(e, o) /\ Observe(e.id, Post(e)) /\ TwinOK(e, o) /\ UNCHANGED <<blob, ck>>
+          /\ Published(e, o.fam, CkOf(e.id))
+TCopy == IsEvent("Copy") /\ LET e == Log[l] IN Copy(e.src, e.dst) /\ ck' = (e.dst :> CkOf(e.src)) @@ ck /\ UNCHANGED blob
+TDestroy == IsEvent("Destroy") /\ LET e == Log[l] IN Destroy(e.id) /\ UNCHANGED <<blob, ck>>
 \* invalid queries must throw: any query of an empty sketch, normalized rank outside [0,1], NaN / unsorted / repeated split points
 TInvalid == IsEvent("Invalid") /\ LET e == Log[l] IN
           /\ Chk("harness:empty-query-on-empty-sketch", e.onempty => obj[e.id].n = 0)
           /\ Chk("invalid-query-rejected", e.threw)
-          /\ UNCHANGED <<obj, blob>>
+          /\ UNCHANGED <<obj, blob, ck>>
 TSer == IsEvent("Ser") /\ LET e == Log[l]  o == WithObs(obj[e.id], Post(e)) IN
           /\ Named(o, e) /\ Observe(e.id, Post(e))
           /\ Chk("C09:bytes=stream", e.img = e.simg)
@@ -90,7 +99,8 @@ TSer == IsEvent("Ser") /\ LET e == Log[l]  o == WithObs(obj[e.id], Post(e)) IN
           /\ Chk("C09:header", e.total = e.hdr + e.size)
           /\ TwinOK(e, o)
           /\ Chk("C09:twin-equal-image", (Has(e, "twinBlob") /\ o.fam # "req") => e.img = blob[e.twinBlob].img)
-          /\ blob' = (e.blob :> [val |-> o, img |-> e.img, size |-> e.size]) @@ blob
+          /\ Published(e, o.fam, CkOf(e.id))
+          /\ blob' = (e.blob :> [val |-> o, img |-> e.img, size |-> e.size, ck |-> CkOf(e.id)]) @@ blob /\ UNCHANGED ck
 TDeser == IsEvent("Deser") /\ LET e == Log[l]  b == blob[e.blob]  v == b.val  o == WithObs(v, Post(e)) IN
           /\ Chk("C09:restored-scalars", e.n = v.n /\ e.k = v.k /\ e.est = v.est /\ e.nret = v.nret /\ (v.n > 0 => e.minD = v.minI /\ e.maxD = v.maxI))
           /\ Chk("C09:restored-pairs", e.pairs = v.pairs)
@@ -98,9 +108,10 @@ TDeser == IsEvent("Deser") /\ LET e == Log[l]  b == blob[e.blob]  v == b.val  o 
           /\ Chk("C09:consumed", e.consumed = b.size)
           /\ Chk("C09:reserialize", e.reimg = b.img)
           /\ Named(o, e)
-          /\ obj' = (e.dst :> o) @@ obj /\ UNCHANGED blob
+          /\ Published(e, o.fam, b.ck)
+          /\ obj' = (e.dst :> o) @@ obj /\ ck' = (e.dst :> b.ck) @@ ck /\ UNCHANGED blob
 
-TInit == obj = <<>> /\ l = 1 /\ blob = <<>>
+TInit == obj = <<>> /\ l = 1 /\ blob = <<>> /\ ck = <<>>
 TNext == TBegin \/ TNew \/ TUpdate \/ TUpdateNaN \/ TMerge \/ TObs \/ TCopy \/ TDestroy \/ TInvalid \/ TSer \/ TDeser
 TSpec == TInit /\ [][TNext]_tvars
 \* cheap per-state invariant (the clauses are evaluated by name at every event)
